@@ -109,6 +109,7 @@ func registerIntrinsics(e *Engine) {
 	reg(apiPkg+".Stop", func(fr *frame, a []value) value {
 		panic(pathEnd{"stop"})
 	})
+	reg(apiPkg+".DeliveryOrder", func(fr *frame, a []value) value { return []value(nil) })
 	reg(apiPkg+".Symbolic", func(fr *frame, a []value) value { return true })
 	reg(apiPkg+".Concretize", func(fr *frame, a []value) value {
 		t := a[0].(*Term)
